@@ -107,7 +107,7 @@ pub fn make_ord(hash: HashT, m: u32, l: usize) -> Box<dyn FnMut(&[u64]) -> Vec<u
 }
 
 fn p2plan(elem: ElemT, hash: HashT, m: usize) -> WPlan {
-    WPlan { variant: Variant::Pmh2, elem, shakey: ShaKey::U64, hash, m, wset: vec![], events: vec![], scale_exp: 0, split: vec![], tiny: false, ghosts: vec![] }
+    WPlan { variant: Variant::Pmh2, elem, shakey: ShaKey::U64, hash, m, wset: vec![], events: vec![], scale_exp: 0, split: vec![], tiny: false, ghosts: vec![], long_keys: false }
 }
 
 impl Scenario for Restart {
